@@ -118,8 +118,10 @@ claim("C04",
       "Flattener::fold_expr is external (ghost log of (expression, frame in effect)); slices drop the rest of resolve_special_func / "
       "translate_windowed; unpack_as_int_literal and sqlparser value construction are trusted by contract.")
 
-prop("C18", ["dialect_select", "set_ops", "header_frame", "header_args", "token_filter"],
-     select={"set_ops": lambda n: n.split(".", 1)[1] in ("WR1", "WR2", "attach_ctes.safety", "attach_ctes.loop_exit")},
+prop("C18", ["dialect_select", "set_ops", "header_frame", "header_args", "token_filter", "resolve_guards"],
+     select={"set_ops": lambda n: n.split(".", 1)[1] in ("WR1", "WR2", "attach_ctes.safety", "attach_ctes.loop_exit"),
+             # the header is a declaration (`prql`) of the root module: that a declaration does not change what OTHER names resolve to through the std redirect is Module::lookup's contract
+             "resolve_guards": lambda n: n.split(".", 1)[1] in ("LK1", "LK2", "lookup.safety")},
      not_covered="that nothing behind the resolution depends on HOW the dialect was given is checked only as a syntactic frame (header_frame: the functions that read the `target` key of the query definition, the uses of translate_query's `dialect` parameter - a textual scan of the tree, not a proof about values), by the WITH clause being a function of the CTEs (set_ops WR1-2) and by the executed thorough sweep; 'the choice never changes which programs the resolver accepts' is argued from signatures only; that two dialect values "
                  "produce the same SQL is not needed (the same value reaches the generator on both routes)")
 claim("C18",
@@ -127,7 +129,7 @@ claim("C18",
       "compile_query uses the explicit option whatever the header says, without even consulting it (DS1a); with no option and no header the "
       "generic dialect (DS1b); with no option the header decides through Target::from_str, and an error there is returned (DS1c, DS1d); "
       "Target::from_str maps 'sql.any' to 'no dialect', 'sql.<name>' to the dialect strum knows under <name>, and everything else to an error "
-      "(FS1-FS4); Target::default() is Sql(None) (TD1). Equality of 'option x' and 'header x' follows: both routes yield the same Dialect value.",
+      "(FS1-FS4); Target::default() is Sql(None) (TD1). the resolver side: the header is one more declaration (`prql`) of the root module, and Module::lookup returns the direct hits plus the hits through EVERY redirect whatever the module itself declares (resolve_guards LK1-2), so a header does not take std names away; the parser is handed every token but comments and line wraps (token_filter TF1). Equality of 'option x' and 'header x' follows: both routes yield the same Dialect value.",
       "strum's Dialect::from_str is an uninterpreted partial function (the name table itself is derive output); HashMap lookup of the header "
       "and translate_query are external; the resolver-independence clause is argued, not checked.")
 
